@@ -766,14 +766,26 @@ pub fn gen_sampled(rng: &mut Rng) -> Option<(Case, Vec<Value>)> {
     prog.build().ok()?;
     let owners: Vec<Owner> = (0..2).map(|_| *rng.pick(&[Owner::Party(0), Owner::Party(1), Owner::Party(2), Owner::Shared])).collect();
     let outputs = crate::gen::gen_outputs(rng);
-    // world A: zeros / small, world B: far apart
-    let small = |t: &Type, rng: &mut Rng| -> Value {
+    // world A: zeros; world B: far from A but with the SAME plaintext output wherever that is easy, so that output
+    // recipients are compared too (an observer that owns an input which differs between the worlds is skipped)
+    let small = |t: &Type, rng: &mut Rng| -> Vec<u128> {
         let st = t.get_scalar_type();
         let lim = if st == BIT { 2 } else { 16 };
-        enc(&(0..num_elems(t)).map(|_| rng.below(lim) as u128).collect::<Vec<_>>(), st)
+        (0..num_elems(t)).map(|_| 1 + rng.below(lim - 1) as u128).collect()
     };
     let a: Vec<Value> = in_types.iter().map(|t| crate::vals::const_value(t, 0)).collect();
-    let b: Vec<Value> = in_types.iter().map(|t| small(t, rng)).collect();
+    let r0 = small(&in_types[0], rng);
+    let st0 = in_types[0].get_scalar_type();
+    let m0 = crate::vals::st_mask(st0);
+    let b: Vec<Value> = match kind {
+        // products with a zero second factor stay zero
+        0 | 1 | 2 => vec![enc(&r0, st0), a[1].clone()],
+        // x + y with (r, -r)
+        4 => vec![enc(&r0, st0), enc(&r0.iter().map(|x| x.wrapping_neg() & m0).collect::<Vec<_>>(), st0)],
+        // (x - y)^2 with (r, r)
+        5 => vec![enc(&r0, st0), enc(&r0, st0)],
+        _ => vec![enc(&r0, st0), enc(&small(&in_types[1], rng), in_types[1].get_scalar_type())],
+    };
     Some((Case { prog, owners, outputs, inline: Inline::Simple, inputs: a }, b))
 }
 
